@@ -12,7 +12,7 @@ classes of the spec; every TLC case is sent as concrete requests with real token
 server, then manipulated) and judged by status class AND engine state delta; every TLC history is
 replayed with real restarts (close + reopen on the same data dir, /system/save, /system/aof-rewrite).
 """
-import json, os, random, re, subprocess, sys
+import json, os, random, re, subprocess, sys, time
 sys.path.insert(0, os.path.dirname(os.path.abspath(__file__)))
 import vlib
 from vlib import Check, make_cfg, run_tlc, Infra
@@ -136,10 +136,18 @@ def judge(chk, divs, checker, profile, behaviours=None):
 def run(tier):
     chk = Check(PROP, tier)
     quick = tier == "quick"
+    phases = {}
+    t_mark = [time.time()]
+
+    def mark(name):
+        now = time.time()
+        phases[name] = round(now - t_mark[0], 1)
+        t_mark[0] = now
     rng = random.Random(vlib.seed())
     binary = vlib.build_harness(cmd="vauth")
     inv = inventory(binary)
     words = special_words()
+    mark("build+inventory")
 
     # ---- 1. TLC: request product and restart machine of the reference design
     rc = model_check(chk, "Auth_cases", "SpecCasesEmit", REF, INV_CASES)
@@ -152,6 +160,7 @@ def run(tier):
     if missing:
         raise Infra("spec/Auth.tla and harness/cmd/vauth/table.go disagree: shapes without cases: %s" % missing)
     unbound = sorted(spec_shapes - set(inv["shapes"]))
+    mark("tlc")
 
     # ---- 2. request cases on the real server
     cases = pick_cases(rc.corpus, tier, rng)
@@ -169,6 +178,7 @@ def run(tier):
     n_req = res.get("requests", 0)
     divs = res.get("divergences", [])
     judge(chk, divs, "cases", profile)
+    mark("cases")
 
     # ---- 3. restart histories on a real data directory
     behaviours, n_hist_states = vlib.behaviours_from_corpus(rh.corpus, max_behaviours=160 if quick else None, rng=rng,
@@ -188,12 +198,14 @@ def run(tier):
     for e in hres.get("errors", []):
         chk.infra.append("history replay: " + e)
     judge(chk, hres.get("divergences", []), "hist", profile, behaviours)
+    mark("histories")
 
     # ---- 4. every-byte tampering of a real token
     sres = vlib.run_sharded(binary, "sweep", profile, [0], payload_key="sweeps", shards=1, timeout=600)
     for e in sres.get("errors", []):
         chk.infra.append("token sweep: " + e)
     judge(chk, sres.get("divergences", []), "sweep", profile)
+    mark("sweep")
 
     # ---- 5. coverage / vacuity
     effective = sorted(set(res.get("effective", [])))
@@ -229,6 +241,8 @@ def run(tier):
                          "mutation_routes_ineffective_with_root": ineffective, "read_words": wsel}
     if not quick:
         chk.cov["diagnostic_deviation_runs"] = diagnostics(chk)
+    mark("diagnostics")
+    chk.cov["phase_wall_s"] = phases
     chk.assumptions += [
         "admin role and root token are global by design (rbac.go HasAccess): an admin token with a namespace list is not namespace restricted",
         "routes whose index cannot be determined by a middleware (query parameter, pipeline name, none) may be refused to namespace-restricted tokens; "
